@@ -92,3 +92,31 @@ Section CheckMsp.
   Definition check_msp (l : list (dna * list (N * N * dna))) : bool :=
     (1 <=? k) && match all_obs l with Some obs => functional obs | None => false end.
 End CheckMsp.
+
+(* ---- C07 for simple_scan, whose intervals carry (bucket, start, len) but no minimizer position: an interval is accepted
+   iff SOME p-mer position q makes it a good interval in the sense of [check_iv] (length bounds, q inside every k-mer of the
+   interval, minimal score in the interval) and has the reported bucket (rank of the canonical p-mer, as u16); the chain
+   conditions (a), (b) are those of [check_chain] without the end condition (f), which speaks about the position. *)
+Section CheckSimple.
+  Variable seq : dna.
+  Variable k p : nat.
+  Variable sc : list N.
+  Definition bucket16 (x : dna) : N := (rank (canon x) mod 65536)%N.
+  Definition check_simple_iv (x : N * nat * nat) : bool :=
+    let '(b, st, ln) := x in
+    existsb (fun q => check_iv seq k p sc (mkS (sub q p seq) q st ln) && (bucket16 (sub q p seq) =? b)%N)
+            (List.seq 0 (S (length seq))).
+  Fixpoint check_simple_chain (l : list (N * nat * nat)) : bool :=
+    match l with
+    | [] => false
+    | (_, st, ln) :: r =>
+        match r with
+        | [] => st + ln =? length seq
+        | (_, st', _) :: _ => (st <? st') && (st' =? st + ln - (k - 1)) && check_simple_chain r
+        end
+    end.
+  Definition check_simple (l : list (N * nat * nat)) : bool :=
+    (1 <=? p) && (p <=? k) && (k <=? length seq) && (length sc =? length seq + 1 - p) &&
+    match l with (_, st, _) :: _ => st =? 0 | [] => false end &&
+    forallb check_simple_iv l && check_simple_chain l.
+End CheckSimple.
